@@ -221,6 +221,40 @@ func checkC07(c C07Case, rec *obs.Recorder) *obs.Violation {
 	if tok.GetContext() != re.GetContext() || re.GetContext() != c.Spec.Blocks[0].Context {
 		return obs.Violf("token %s: context %q / %q", desc, tok.GetContext(), re.GetContext())
 	}
+	// content accessors: the checks of every block, and the block in which a fact is first found
+	firstBlock := map[string]int{}
+	for i, b := range c.Spec.Blocks {
+		for _, f := range b.Facts {
+			if _, ok := firstBlock[f.Key()]; !ok {
+				firstBlock[f.Key()] = i
+			}
+		}
+	}
+	for which, tk := range map[string]*biscuit.Biscuit{"built": tok, "unmarshalled": re} {
+		chk := tk.Checks()
+		if len(chk) != len(c.Spec.Blocks) {
+			return obs.ViolK("accessors", "token %s (%s): Checks() has %d entries for %d blocks", desc, which, len(chk), len(c.Spec.Blocks))
+		}
+		for i, b := range c.Spec.Blocks {
+			if len(chk[i]) != len(b.Checks) {
+				return obs.ViolK("accessors", "token %s (%s): Checks()[%d] has %d checks, the caller supplied %d", desc, which, i, len(chk[i]), len(b.Checks))
+			}
+			for j, ch := range b.Checks {
+				if len(chk[i][j].Queries) != len(ch.Queries) {
+					return obs.ViolK("accessors", "token %s (%s): check %d of block %d has %d queries, the caller supplied %d", desc, which, j, i, len(chk[i][j].Queries), len(ch.Queries))
+				}
+			}
+			for _, f := range b.Facts {
+				if hasDupSet(f) {
+					continue
+				}
+				got, err := tk.GetBlockID(bridge.ToFact(f))
+				if err != nil || got != firstBlock[f.Key()] {
+					return obs.ViolK("accessors", "token %s (%s): GetBlockID(%s) = %d, %v; the first block holding that fact is %d", desc, which, f.Text(), got, err, firstBlock[f.Key()])
+				}
+			}
+		}
+	}
 	// one Unmarshaler value used for several tokens decodes each as if it were the only one
 	if len(c.Other.Blocks) > 0 {
 		other, _, _, err := c.Other.build()
@@ -417,8 +451,25 @@ func drawC07(t *rapid.T) C07Case {
 func TestC07(t *testing.T) {
 	rec := obs.New("C07")
 	defer rec.Flush(true)
-	rec.SetExtra("rule", "rapid histories build / append x(0-3) / seal? / serialize / unmarshal over blocks with every term type (64-bit boundary integers, unicode and quoted strings, dates, byte arrays, booleans, sets), expressions of depth <= 4 over all operators with explicit parentheses, all 28 default symbols and fresh symbols shared across blocks, contexts, root key ids. Oracle (1): the independent reader + the specification's symbol rules give back, block for block, the supplied content, version 3, tables of new symbols only; (2) Unmarshal: same String / RevocationIds / RootKeyID / BlockCount / context, same outcome on a panel of 3 generated authorizers, byte-identical re-serialization, also after the buffer handed to Unmarshal has been overwritten; two tokens appended to one drawn stage leave every earlier token's bytes unchanged and carry their own block; an Unmarshaler value that has decoded another token decodes this one exactly like a fresh one and leaves the caller's base table alone; (3) a token written and signed by the independent writer is accepted when all blocks declare version 3 and rejected when one declares absent/0/1/2/4/2^32-1. Non-trivial = a fresh symbol, an expression or a set, and two blocks (or a symbol shared between blocks); distinct by token content.")
+	rec.SetExtra("rule", "rapid histories build / append x(0-3) / seal? / serialize / unmarshal over blocks with every term type (64-bit boundary integers, unicode and quoted strings, dates, byte arrays, booleans, sets), expressions of depth <= 4 over all operators with explicit parentheses, all 28 default symbols and fresh symbols shared across blocks, contexts, root key ids. Oracle (1): the independent reader + the specification's symbol rules give back, block for block, the supplied content, version 3, tables of new symbols only; (2) Unmarshal: same String / RevocationIds / RootKeyID / BlockCount / context / Checks() shape / GetBlockID of every supplied fact (first block holding it), same outcome on a panel of 3 generated authorizers, byte-identical re-serialization, also after the buffer handed to Unmarshal has been overwritten; two tokens appended to one drawn stage leave every earlier token's bytes unchanged and carry their own block; an Unmarshaler value that has decoded another token decodes this one exactly like a fresh one and leaves the caller's base table alone; (3) a token written and signed by the independent writer is accepted when all blocks declare version 3 and rejected when one declares absent/0/1/2/4/2^32-1. Non-trivial = a fresh symbol, an expression or a set, and two blocks (or a symbol shared between blocks); distinct by token content.")
 	rec.SetExtra("assumptions", []string{"facts and rules are compared as multisets per block, checks / queries / bodies / operator sequences in order", "the independent codec is typed in from the published schema"})
 	_ = strings.Join
 	harness.RunWith(t, harness.Spec[C07Case]{ID: "C07", Draw: drawC07, Check: checkC07}, rec)
+}
+
+// hasDupSet reports whether a term of p is a set that repeats an element (the
+// library compares such sets by membership, the model by multiset).
+func hasDupSet(p m.Pred) bool {
+	for _, t := range p.Terms {
+		if t.K == m.KSet {
+			seen := map[string]bool{}
+			for _, e := range t.Set {
+				if seen[e.Key()] {
+					return true
+				}
+				seen[e.Key()] = true
+			}
+		}
+	}
+	return false
 }
